@@ -54,10 +54,15 @@ structure Exc where
 deriving DecidableEq, Repr
 
 /-! ## values -/
-/-- dict keys: the one-letter string `chr(97+c)`, an int, a bytes object, `None`, a tuple of ints — key
-sets may mix them freely (such keys cannot be ordered with each other) -/
+/-- a field of a tuple key: an int or the one-letter string `chr(97+c)` -/
+inductive KField | int (n : Int) | str (c : Nat)
+deriving DecidableEq, Repr
+
+/-- dict keys: the one-letter string `chr(97+c)`, an int, a bytes object, `None`, a tuple of ints and
+one-letter strings — key sets may mix them freely: keys of different types cannot be ordered with each
+other, and neither can two tuples such as `(1, 'a')` and `('a', 1)` -/
 inductive Key
-  | str (c : Nat) | int (n : Int) | bytes (b : List Nat) | none | tup (xs : List Int)
+  | str (c : Nat) | int (n : Int) | bytes (b : List Nat) | none | tup (xs : List KField)
 deriving DecidableEq, Repr
 
 inductive V
@@ -112,11 +117,12 @@ def keyV : Key → V
   | .int n => .int n
   | .bytes b => .bytes b
   | .none => .none
-  | .tup xs => .tuple (xs.map .int)
+  | .tup xs => .tuple (xs.map fun f => match f with | .int n => V.int n | .str c => V.str [97 + c])
 
-def intsOf : List V → Option (List Int)
+def fieldsOf : List V → Option (List KField)
   | [] => some []
-  | .int n :: r => (intsOf r).map (n :: ·)
+  | .int n :: r => (fieldsOf r).map (.int n :: ·)
+  | .str [c] :: r => if 97 ≤ c then (fieldsOf r).map (.str (c - 97) :: ·) else Option.none
   | _ :: _ => Option.none
 
 /-- the dict key a value is, if it is one of the universe (other hashable values are never keys of the
@@ -126,7 +132,7 @@ def toKey : V → Option Key
   | .int n => some (.int n)
   | .bytes b => some (.bytes b)
   | .none => some .none
-  | .tuple xs => (intsOf xs).map .tup
+  | .tuple xs => (fieldsOf xs).map .tup
   | _ => Option.none
 
 /-- `iter(v)`; `none` = `TypeError` (exc_info tuples are iterable in Python but their members are not in
